@@ -4,7 +4,7 @@ SHELL := /bin/bash
 COQ_TIMEOUT ?= 1800
 J ?= 12
 
-.PHONY: setup all gen coq extract driver clean prectable onlinegen offlinegen offlinegen-check offlinegen-mutants denseonlinegen denseonlinegen-check denseonlinegen-mutants pastifiergen pastifiergen-check pastifiergen-mutants explainergen explainergen-check explainergen-mutants denseofflinegen denseofflinegen-check denseofflinegen-mutants mergegen mergegen-check mergegen-mutants unitsgen unitsgen-check unitsgen-mutants coqchk coqchk-float static
+.PHONY: setup all gen coq extract driver clean prectable onlinegen offlinegen offlinegen-check offlinegen-mutants denseonlinegen denseonlinegen-check denseonlinegen-mutants pastifiergen pastifiergen-check pastifiergen-mutants explainergen explainergen-check explainergen-mutants denseofflinegen denseofflinegen-check denseofflinegen-mutants mergegen mergegen-check mergegen-mutants unitsgen unitsgen-check unitsgen-mutants parservisitorgen parservisitorgen-check parservisitorgen-mutants coqchk coqchk-float static
 
 # `make all` never stops at the first failure: a source file of nickovic/rtamt that a translator refuses, or a proof that no longer
 # checks against the regenerated text, must break the obligations of the properties that depend on it and of no other property.
@@ -18,7 +18,7 @@ all:
 	@($(MAKE) coq > build/status/coq.log 2>&1 && echo ok > build/status/coq) || (tail -40 build/status/coq.log > build/status/coq; true)
 	@($(MAKE) driver > build/status/driver.log 2>&1 && echo ok > build/status/driver) || (tail -40 build/status/driver.log > build/status/driver; true)
 	@grep -v "^COQC\|^COQDEP\|Closed under the global context\|^make" build/status/coq.log | tail -5; true
-	@for f in prectable offlinegen onlinegen denseonlinegen pastifiergen explainergen denseofflinegen mergegen unitsgen coq driver; do if [ "`head -c 2 build/status/$$f`" != "ok" ]; then echo "make all: step $$f failed (build/status/$$f)"; fail=1; fi; done; test -z "$$fail"
+	@for f in prectable offlinegen onlinegen denseonlinegen pastifiergen explainergen denseofflinegen mergegen unitsgen parservisitorgen coq driver; do if [ "`head -c 2 build/status/$$f`" != "ok" ]; then echo "make all: step $$f failed (build/status/$$f)"; fail=1; fi; done; test -z "$$fail"
 
 coq/Makefile.coq: coq/_CoqProject
 	cd coq && coq_makefile -f _CoqProject -o Makefile.coq
@@ -36,6 +36,26 @@ gen:
 	@($(MAKE) -s explainergen > build/status/explainergen.log 2>&1 && echo ok > build/status/explainergen) || (tail -20 build/status/explainergen.log > build/status/explainergen; true)
 	@($(MAKE) -s mergegen > build/status/mergegen.log 2>&1 && echo ok > build/status/mergegen) || (tail -20 build/status/mergegen.log > build/status/mergegen; true)
 	@($(MAKE) -s unitsgen > build/status/unitsgen.log 2>&1 && echo ok > build/status/unitsgen) || (tail -20 build/status/unitsgen.log > build/status/unitsgen; true)
+	@($(MAKE) -s parservisitorgen > build/status/parservisitorgen.log 2>&1 && echo ok > build/status/parservisitorgen) || (tail -20 build/status/parservisitorgen.log > build/status/parservisitorgen; true)
+
+# the AST-building methods of the parser visitors (rtamt/syntax/ast/parser/{ltl,stl}/parser_visitor.py: visitExprX, visitInterval, the two
+# intervalTime methods, str_to_op_type) are re-translated on every build (tools/py2coq_parservisitor.py, fail-closed: an unsupported construct,
+# a new / removed method, a changed pinned method, a grammar alternative the table does not know stops the translator: C14 and C15 are then
+# reported as no longer shown); ElabGenCorrect.v re-proves, against the new text, that the generated visitors compute ParserDecl.visit_dump
+parservisitorgen:
+	@mkdir -p build
+	python3 tools/py2coq_parservisitor.py $(REPO) build/ElabGen.v.new
+	@cmp -s build/ElabGen.v.new coq/theories/ElabGen.v || cp build/ElabGen.v.new coq/theories/ElabGen.v
+
+# differential check of the generated visitors against the Python classes on random specification texts (not part of `all`: ~30 s of vm_compute)
+parservisitorgen-check: coq
+	PYTHONDONTWRITEBYTECODE=1 PYTHONPATH=$(REPO) /venv/bin/python harness/parservisitorgen_check.py --n 4000 build/ElabGenCases.v
+	cd coq && timeout 1800 coqc -Q theories RV ../build/ElabGenCases.v > ../build/ElabGenCases.out
+	PYTHONDONTWRITEBYTECODE=1 PYTHONPATH=$(REPO) /venv/bin/python harness/parservisitorgen_check.py --n 4000 --judge build/ElabGenCases.out build/ElabGenCases.v
+
+# semantic mutations + harmless rewrites of scratch copies of the two source files: translator verdict / first lemma that fails
+parservisitorgen-mutants: coq
+	python3 tools/parservisitorgen_mutants.py
 
 # the precedence table of the parser model is regenerated from rtamt's generated ANTLR parser on every build
 prectable:
